@@ -178,73 +178,129 @@ func ruleLockset(c *Ctx, r *Report) {
 			r.Check(ok, fmt.Sprintf("%s:select#%d(%s,%s)", f.Name, i, a.mapF, a.muF), c.Pos(f.Decl.Pos()), "map and its paired mutex selected together",
 				fmt.Sprintf("a branch selects map %q together with mutex %q (pairing by declaration: %v): some accesses to the map run under the wrong lock or none", a.mapF, a.muF, pair))
 		}
-		// accesses
+		// accesses, in the method itself and in helpers that receive the map and its mutex.
 		n := 0
-		ast.Inspect(f.Decl.Body, func(x ast.Node) bool {
-			ix, ok := x.(*ast.IndexExpr)
-			if !ok {
-				return true
-			}
-			base := ast.Unparen(ix.X)
-			isCache := false
-			if mapVar != nil && ObjOf(info, base) == mapVar {
-				isCache = true
-			}
-			if fld := fieldOf(base); fld != "" {
-				if _, ok := pair[fld]; ok {
-					isCache = true
+		var checkAccesses func(g *FuncInfo, mapVar, muVar types.Object, fields bool, depth int)
+		checkAccesses = func(g *FuncInfo, mapVar, muVar types.Object, fields bool, depth int) {
+			info := g.Info()
+			pm := c.parentMap(g.File)
+			fieldOf := func(e ast.Expr) string {
+				if !fields {
+					return ""
 				}
-			}
-			if !isCache {
-				return true
-			}
-			n++
-			write := false
-			if as, ok := pm[ix].(*ast.AssignStmt); ok {
-				for _, l := range as.Lhs {
-					if l == ast.Expr(ix) {
-						write = true
+				e = ast.Unparen(e)
+				if u, ok := e.(*ast.UnaryExpr); ok && u.Op == token.AND {
+					e = u.X
+				}
+				if sel, ok := e.(*ast.SelectorExpr); ok {
+					if s, ok := info.Selections[sel]; ok && s.Kind() == types.FieldVal {
+						return sel.Sel.Name
 					}
 				}
+				return ""
 			}
-			// enclosing function body (FuncLit or decl): preceding Lock/RLock + deferred unlock in same list.
-			held, deferred := "", false
-			for cur := ast.Node(ix); cur != nil; cur = pm[cur] {
-				var list []ast.Stmt
-				if b, ok := cur.(*ast.BlockStmt); ok {
-					list = b.List
+			isMapExpr := func(e ast.Expr) bool {
+				base := ast.Unparen(e)
+				if mapVar != nil && ObjOf(info, base) == mapVar {
+					return true
 				}
-				for _, s := range list {
-					if s.Pos() >= ix.Pos() {
-						break
+				if fld := fieldOf(base); fld != "" {
+					if _, ok := pair[fld]; ok {
+						return true
 					}
-					switch st := s.(type) {
-					case *ast.ExprStmt:
-						if call, ok := st.X.(*ast.CallExpr); ok {
-							if sel, ok := call.Fun.(*ast.SelectorExpr); ok && (sel.Sel.Name == "Lock" || sel.Sel.Name == "RLock") {
-								if (muVar != nil && ObjOf(info, sel.X) == muVar) || fieldOf(sel.X) != "" {
-									held = sel.Sel.Name
-								}
+				}
+				return false
+			}
+			isMuExpr := func(e ast.Expr) bool {
+				e = ast.Unparen(e)
+				if muVar != nil && ObjOf(info, e) == muVar {
+					return true
+				}
+				if fld := fieldOf(e); fld != "" {
+					for _, mu := range pair {
+						if mu == fld {
+							return true
+						}
+					}
+				}
+				return false
+			}
+			ast.Inspect(g.Decl.Body, func(x ast.Node) bool {
+				if call, ok := x.(*ast.CallExpr); ok && depth < 2 {
+					if h := c.funcOfCallee(Callee(info, call)); h != nil && h != g {
+						mi, ui := -1, -1
+						for i, a := range call.Args {
+							if isMapExpr(a) {
+								mi = i
+							}
+							if isMuExpr(a) {
+								ui = i
 							}
 						}
-					case *ast.DeferStmt:
-						if sel, ok := st.Call.Fun.(*ast.SelectorExpr); ok && (sel.Sel.Name == "Unlock" || sel.Sel.Name == "RUnlock") {
-							deferred = true
+						if mi >= 0 {
+							hp := paramObjs(h)
+							if ui < 0 || mi >= len(hp) || ui >= len(hp) {
+								n++
+								r.Bad(fmt.Sprintf("%s:cache-handed-to(%s)#%d", f.Name, h.Name, n), c.Pos(call.Pos()), "the regexp cache map is passed to "+h.Name+" without its mutex: accesses there cannot hold the paired lock")
+							} else {
+								checkAccesses(h, hp[mi], hp[ui], false, depth+1)
+							}
 						}
 					}
 				}
-				if _, isLit := cur.(*ast.FuncLit); isLit {
-					break
+				ix, ok := x.(*ast.IndexExpr)
+				if !ok || !isMapExpr(ix.X) {
+					return true
 				}
-			}
-			okAcc := (write && held == "Lock" || !write && held != "") && deferred
-			kind := "read"
-			if write {
-				kind = "write"
-			}
-			r.Check(okAcc, fmt.Sprintf("%s:cache-%s#%d", f.Name, kind, n), c.Pos(ix.Pos()), "under "+held+" with deferred unlock",
-				fmt.Sprintf("%s of the regexp cache map without the required lock held (held=%q, deferred unlock=%v): concurrent Validate calls race on the map", kind, held, deferred))
-			return true
-		})
+				n++
+				write := false
+				if as, ok := pm[ix].(*ast.AssignStmt); ok {
+					for _, l := range as.Lhs {
+						if l == ast.Expr(ix) {
+							write = true
+						}
+					}
+				}
+				// enclosing function body (FuncLit or decl): preceding Lock/RLock + deferred unlock in same list.
+				held, deferred := "", false
+				for cur := ast.Node(ix); cur != nil; cur = pm[cur] {
+					var list []ast.Stmt
+					if b, ok := cur.(*ast.BlockStmt); ok {
+						list = b.List
+					}
+					for _, s := range list {
+						if s.Pos() >= ix.Pos() {
+							break
+						}
+						switch st := s.(type) {
+						case *ast.ExprStmt:
+							if call, ok := st.X.(*ast.CallExpr); ok {
+								if sel, ok := call.Fun.(*ast.SelectorExpr); ok && (sel.Sel.Name == "Lock" || sel.Sel.Name == "RLock") {
+									if isMuExpr(sel.X) {
+										held = sel.Sel.Name
+									}
+								}
+							}
+						case *ast.DeferStmt:
+							if sel, ok := st.Call.Fun.(*ast.SelectorExpr); ok && (sel.Sel.Name == "Unlock" || sel.Sel.Name == "RUnlock") && isMuExpr(sel.X) {
+								deferred = true
+							}
+						}
+					}
+					if _, isLit := cur.(*ast.FuncLit); isLit {
+						break
+					}
+				}
+				okAcc := (write && held == "Lock" || !write && held != "") && deferred
+				kind := "read"
+				if write {
+					kind = "write"
+				}
+				r.Check(okAcc, fmt.Sprintf("%s:cache-%s#%d", f.Name, kind, n), c.Pos(ix.Pos()), "under "+held+" with deferred unlock",
+					fmt.Sprintf("%s of the regexp cache map without the required lock held (held=%q, deferred unlock=%v): concurrent Validate calls race on the map", kind, held, deferred))
+				return true
+			})
+		}
+		checkAccesses(f, mapVar, muVar, true, 0)
 	}
 }
